@@ -431,3 +431,147 @@ def inline_new_helpers(tree: ast.Module, modname: str) -> list[str]:
     inl = Inliner(tree, modname, _baseline())
     inl.run()
     return inl.inlined
+
+
+# --------------------------------------------------------------------------------------------------
+# idiom normalisation (statement level)
+# --------------------------------------------------------------------------------------------------
+def _same(a, b) -> bool:
+    return ast.dump(a) == ast.dump(b)
+
+
+def _get_or_create(s1, s2):
+    """v = D.get(K) ; if v is None [or: not v]: v = D[K] = E   (also  v = E; D[K] = v)   ->   v = D.setdefault(K, E)
+    The value semantics are the same (E is evaluated eagerly by setdefault, which matters only for side effects of E;
+    the rules treat E as the value stored on first use of the key in both forms)."""
+    if not (isinstance(s1, ast.Assign) and len(s1.targets) == 1 and isinstance(s1.targets[0], ast.Name)):
+        return None
+    c = s1.value
+    if not (isinstance(c, ast.Call) and isinstance(c.func, ast.Attribute) and c.func.attr == "get" and len(c.args) == 1 and not c.keywords):
+        return None
+    v, D, K = s1.targets[0].id, c.func.value, c.args[0]
+    if not (isinstance(s2, ast.If) and not s2.orelse):
+        return None
+    t = s2.test
+    is_none = isinstance(t, ast.Compare) and len(t.ops) == 1 and isinstance(t.ops[0], ast.Is) and isinstance(t.left, ast.Name) and t.left.id == v and isinstance(t.comparators[0], ast.Constant) and t.comparators[0].value is None
+    is_not = isinstance(t, ast.UnaryOp) and isinstance(t.op, ast.Not) and isinstance(t.operand, ast.Name) and t.operand.id == v
+    if not (is_none or is_not):
+        return None
+
+    def is_slot(x):
+        return isinstance(x, ast.Subscript) and _same(x.value, D) and _same(x.slice, K)
+
+    body = s2.body
+    E = None
+    if len(body) == 1 and isinstance(body[0], ast.Assign) and len(body[0].targets) == 2:
+        a, b = body[0].targets
+        if (isinstance(a, ast.Name) and a.id == v and is_slot(b)) or (isinstance(b, ast.Name) and b.id == v and is_slot(a)):
+            E = body[0].value
+    elif len(body) == 2 and all(isinstance(x, ast.Assign) and len(x.targets) == 1 for x in body):
+        x, y = body
+        if isinstance(x.targets[0], ast.Name) and x.targets[0].id == v and is_slot(y.targets[0]) and isinstance(y.value, ast.Name) and y.value.id == v:
+            E = x.value
+    if E is None:
+        return None
+    call = ast.Call(func=ast.Attribute(value=D, attr="setdefault", ctx=ast.Load()), args=[K, E], keywords=[])
+    new = ast.Assign(targets=[ast.Name(id=v, ctx=ast.Store())], value=call)
+    ast.copy_location(new, s1)
+    ast.copy_location(call, s1)
+    ast.copy_location(call.func, s1)
+    ast.copy_location(new.targets[0], s1)
+    return new
+
+
+def _cond_value(fn, s1, s2):
+    """v = A if c else B ; <simple statement using v exactly once, v used nowhere else>
+         ->  if c: <statement with A> else: <statement with B>"""
+    if not (isinstance(s1, ast.Assign) and len(s1.targets) == 1 and isinstance(s1.targets[0], ast.Name) and isinstance(s1.value, ast.IfExp)):
+        return None
+    v = s1.targets[0].id
+    if not isinstance(s2, ast.Expr | ast.Assign | ast.AugAssign | ast.Return):
+        return None
+    loads = [n for n in ast.walk(fn) if isinstance(n, ast.Name) and n.id == v and isinstance(n.ctx, ast.Load)]
+    stores = [n for n in ast.walk(fn) if isinstance(n, ast.Name) and n.id == v and isinstance(n.ctx, ast.Store | ast.Del)]
+    here = [n for n in ast.walk(s2) if isinstance(n, ast.Name) and n.id == v and isinstance(n.ctx, ast.Load)]
+    if len(loads) != 1 or len(here) != 1 or len(stores) != 1:
+        return None
+    if any(isinstance(n, ast.Lambda | ast.GeneratorExp | ast.ListComp | ast.SetComp | ast.DictComp) for n in ast.walk(s2)):
+        return None
+
+    def subst(stmt, e):
+        class T(ast.NodeTransformer):
+            def visit_Name(self_, n):
+                if n.id == v and isinstance(n.ctx, ast.Load):
+                    return copy.deepcopy(e)
+                return n
+
+        return T().visit(copy.deepcopy(stmt))
+
+    new = ast.If(test=s1.value.test, body=[subst(s2, s1.value.body)], orelse=[subst(s2, s1.value.orelse)])
+    ast.copy_location(new, s1)
+    return ast.fix_missing_locations(new)
+
+
+def _cv_key(fn, stmt) -> str:
+    """rename-invariant key of a conditional-value statement: function name + value shape with local names blanked"""
+    class A(ast.NodeTransformer):
+        def visit_Name(self, n):
+            return ast.Name(id="_", ctx=ast.Load())
+
+    return f"{fn.name}: {ast.unparse(A().visit(copy.deepcopy(stmt.value)))}"
+
+
+def _baseline_cond_values():
+    try:
+        return set(json.loads(BASELINE.read_text()).get("cond_values", []))
+    except Exception:
+        return set()
+
+
+def cond_value_candidates(tree):
+    """texts of the `v = A if c else B` statements the normalisation would rewrite (for the pinned inventory)"""
+    out = []
+    for fn in [x for x in ast.walk(tree) if isinstance(x, ast.FunctionDef)]:
+        for node in ast.walk(fn):
+            for fld in ("body", "orelse", "finalbody"):
+                blk = getattr(node, fld, None)
+                if isinstance(blk, list) and all(isinstance(x, ast.stmt) for x in blk):
+                    for a, b in zip(blk, blk[1:]):
+                        if _cond_value(fn, a, b) is not None:
+                            out.append(_cv_key(fn, a))
+    return out
+
+
+def normalise_idioms(tree) -> int:
+    n = 0
+    keep = _baseline_cond_values()
+    for fn in [x for x in ast.walk(tree) if isinstance(x, ast.FunctionDef)]:
+        for node in ast.walk(fn):
+            for fld in ("body", "orelse", "finalbody"):
+                blk = getattr(node, fld, None)
+                if not isinstance(blk, list) or len(blk) < 2 or not all(isinstance(x, ast.stmt) for x in blk):
+                    continue
+                i = 0
+                while i + 1 < len(blk):
+                    new = _cond_value(fn, blk[i], blk[i + 1])
+                    if new is not None and _cv_key(fn, blk[i]) in keep:
+                        new = None  # present on the pinned tree: the rules were written against this form
+                    if new is not None:
+                        blk[i:i + 2] = [new]
+                        n += 1
+                    else:
+                        i += 1
+    for node in ast.walk(tree):
+        for fld in ("body", "orelse", "finalbody"):
+            blk = getattr(node, fld, None)
+            if not isinstance(blk, list) or len(blk) < 2 or not all(isinstance(x, ast.stmt) for x in blk):
+                continue
+            i = 0
+            while i + 1 < len(blk):
+                new = _get_or_create(blk[i], blk[i + 1])
+                if new is not None:
+                    blk[i:i + 2] = [new]
+                    n += 1
+                else:
+                    i += 1
+    return n
